@@ -2,7 +2,7 @@
 //@ assume: txhashset::header_extending is abstract (it builds structs holding `&mut` borrows): assumed to return Ok(v) only if the closure returned Ok(v), to keep the closure's index writes (made on a child batch) only if the closure did not force a rollback, and to leave the batch untouched on Err
 //@ assume: T7: the closure passed to txhashset::header_extending is lifted to pbhs_inner (captured last_header, sync_head, head, ctx_specific_validation become parameters). T6: `headers.last().expect(..)` => helper last_of (requires non-empty, returns the last element); `last_header.into()` => tip_from (the From<&BlockHeader> impl, field-for-field the same as Tip::from_header); `&mut batch` on the closure's `mut batch: &mut Batch` parameter => `batch`; `for header in headers {` => Verus iterator loop with spliced invariant; log macros removed
 //@ assume: decided here: pipe::process_block_headers (header sync) moves the stored header head ONLY to the tip of the LAST header of the batch, ONLY if that header has strictly more total difficulty than the header head read at the start, and ONLY after EVERY header of the batch passed validate_header and the fork was applied to the header MMR; otherwise the header extension is force-rolled-back and the header head is untouched (also on every error path and for an empty batch)
-//@ assumed_items: 19
+//@ assumed_items: 20
 //@ fns: pipe::process_block_headers, pipe::process_block_headers (closure passed to txhashset::header_extending), pipe::has_more_work, pipe::update_header_head
 #[verifier::external_body]
 #[derive(Clone, Copy)]
@@ -120,9 +120,11 @@ pub open spec fn sp_hsinner_ok(last: BlockHeader, head: Tip, old_hh: Tip, new_hh
 //@+    r.is_err() ==> true,
 //@ end
 
+#[verifier::external_body]
+fn arbitrary_tip() -> (r: Tip) { unimplemented!() }
 pub struct HsInnerEnv<'a> { pub last_header: &'a BlockHeader, pub sync_head: Tip, pub head: Tip }
 #[verifier::external_body]
-fn header_extending_pbhs(header_pmmr: &mut HeaderPmmr, batch: &mut Batch, env: HsInnerEnv, allowed: &Allowed) -> (r: Result<Option<Tip>, Error>)
+fn header_extending_pbhs(allowed: &Allowed, header_pmmr: &mut HeaderPmmr, batch: &mut Batch, env: HsInnerEnv) -> (r: Result<Option<Tip>, Error>)
     ensures r.is_ok() ==> exists|hh: Tip, rb: bool| sp_hsinner_ok(*env.last_header, env.head, old(batch).header_head@, hh, rb)
                 && final(batch).header_head@ == (if rb { old(batch).header_head@ } else { hh }),
             r.is_err() ==> final(batch).header_head@ == old(batch).header_head@ { unimplemented!() }
@@ -132,11 +134,11 @@ pub open spec fn all_valid(hs: Seq<BlockHeader>, upto: int) -> bool { forall|i: 
 //@ extract chain/src/pipe.rs :: fn process_block_headers
 //@   strip_logs
 //@   sigrewrite `ctx: &mut BlockContext<'_>` => `ctx: &mut BlockContext`
-//@   closure 1 replaced_by `HsInnerEnv { last_header, sync_head, head }`
+//@   closure 1 replaced_by `HsInnerEnv { last_header, sync_head, head: {head?arbitrary_tip()} }`
 //@   rewrite `let last_header = headers.last().expect("last header");` => `let last_header = last_of(headers);`
 //@   rewrite `for header in headers {` => `for header in it: headers.iter() {`
 //@   rewrite `\tlet ctx_specific_validation = &ctx.header_allowed;\n` => ``
-//@   rewrite `txhashset::header_extending(&mut ctx.header_pmmr, &mut ctx.batch, HsInnerEnv { last_header, sync_head, head })` => `header_extending_pbhs(&mut ctx.header_pmmr, &mut ctx.batch, HsInnerEnv { last_header, sync_head, head }, &ctx.header_allowed)`
+//@   rewrite `txhashset::header_extending(&mut ctx.header_pmmr, &mut ctx.batch, HsInnerEnv {` => `header_extending_pbhs(&ctx.header_allowed, &mut ctx.header_pmmr, &mut ctx.batch, HsInnerEnv {`
 //@   loop 1:
 //@+    invariant
 //@+        all_valid(headers@, it.index@ as int),
